@@ -23,11 +23,52 @@ Proof. unfold bump_lsn. destruct (N.leb_spec (nextLSN s) l); cbn [nextLSN]; lia.
 Lemma bump_id s l : l < nextLSN s -> bump_lsn s l = s.
 Proof. intros H. unfold bump_lsn. destruct (N.leb_spec (nextLSN s) l); [lia | reflexivity]. Qed.
 
+(* ---------- bump_key ---------- *)
+Lemma bkey_forest s w : forest (bump_key s w) = forest s.
+Proof. unfold bump_key. destruct (w_op w); reflexivity. Qed.
+Lemma bkey_ptRoot s w : ptRoot (bump_key s w) = ptRoot s.
+Proof. unfold bump_key. destruct (w_op w); reflexivity. Qed.
+Lemma bkey_nextFree s w : nextFree (bump_key s w) = nextFree s.
+Proof. unfold bump_key. destruct (w_op w); reflexivity. Qed.
+Lemma bkey_nextLSN s w : nextLSN (bump_key s w) = nextLSN s.
+Proof. unfold bump_key. destruct (w_op w); reflexivity. Qed.
+Lemma bkey_ge s w : lastKey s <= lastKey (bump_key s w).
+Proof. unfold bump_key. destruct (w_op w); cbn [lastKey]; lia. Qed.
+Lemma bkey_insert s w : w_op w = OpInsert -> w_cell w <= lastKey (bump_key s w).
+Proof. intros H. unfold bump_key. rewrite H. cbn [lastKey]. lia. Qed.
+Lemma bkey_id s w : (w_op w = OpInsert -> w_cell w <= lastKey s) -> bump_key s w = s.
+Proof.
+  intros H. unfold bump_key. destruct (w_op w); try reflexivity. specialize (H eq_refl).
+  destruct s as [f lk pt nf nl]. cbn in *. f_equal. lia.
+Qed.
+
+(* the store replay_one works on: counters raised first *)
+Definition pre (s : store) (w : walentry) : store := bump_key (bump_lsn s (w_lsn w)) w.
+Lemma pre_forest s w : forest (pre s w) = forest s.
+Proof. unfold pre. rewrite bkey_forest. apply bump_forest. Qed.
+Lemma pre_ptRoot s w : ptRoot (pre s w) = ptRoot s.
+Proof. unfold pre. rewrite bkey_ptRoot. apply bump_ptRoot. Qed.
+Lemma pre_nextFree s w : nextFree (pre s w) = nextFree s.
+Proof. unfold pre. rewrite bkey_nextFree. apply bump_nextFree. Qed.
+Lemma pre_gt s w : w_lsn w < nextLSN (pre s w).
+Proof. unfold pre. rewrite bkey_nextLSN. apply bump_gt. Qed.
+Lemma pre_ge s w : nextLSN s <= nextLSN (pre s w).
+Proof. unfold pre. rewrite bkey_nextLSN. apply bump_ge. Qed.
+Lemma pre_key_ge s w : lastKey s <= lastKey (pre s w).
+Proof. unfold pre. pose proof (bkey_ge (bump_lsn s (w_lsn w)) w). rewrite bump_lastKey in H. exact H. Qed.
+Lemma pre_key_insert s w : w_op w = OpInsert -> w_cell w <= lastKey (pre s w).
+Proof. intros H. unfold pre. apply bkey_insert. exact H. Qed.
+Lemma pre_id s w : w_lsn w < nextLSN s -> (w_op w = OpInsert -> w_cell w <= lastKey s) -> pre s w = s.
+Proof. intros A B. unfold pre. rewrite (bump_id s _ A). apply bkey_id. exact B. Qed.
+
 Lemma store_eta s : mkStore (forest s) (lastKey s) (ptRoot s) (nextFree s) (nextLSN s) = s.
 Proof. destruct s; reflexivity. Qed.
 
 Lemma bump_seq s l : seq (bump_lsn s l) s.
 Proof. constructor; [rewrite bump_forest | apply bump_ptRoot | apply bump_nextFree]; reflexivity. Qed.
+
+Lemma pre_seq s w : seq (pre s w) s.
+Proof. constructor; [rewrite pre_forest | apply pre_ptRoot | apply pre_nextFree]; reflexivity. Qed.
 
 Lemma bump_good s l : Good s -> Good (bump_lsn s l).
 Proof.
@@ -36,6 +77,15 @@ Proof.
     apply SInv_header; [lia | exact A].
   - split; [pose proof (bump_ge s l); lia|]. rewrite bump_forest.
     eapply Forall_nodes_weaken; [apply bump_ge | exact C].
+Qed.
+
+Lemma pre_good s w : Good s -> Good (pre s w).
+Proof.
+  intros [A [B C]]. split.
+  - rewrite <- (store_eta (pre s w)), pre_forest, pre_nextFree.
+    apply SInv_header; [apply pre_key_ge | exact A].
+  - split; [pose proof (pre_ge s w); lia|]. rewrite pre_forest.
+    eapply Forall_nodes_weaken; [apply pre_ge | exact C].
 Qed.
 
 (* ---------- transfer across equality up to dirty flags ---------- *)
@@ -191,19 +241,19 @@ Proof.
   inversion R1; subst k lsn newroot. clear R1.
   cbn [lastKey nextLSN] in K1, L1.
   split; [reflexivity|]. split; [symmetry; exact L1|].
-  exists (mkStore (replace_root root ta' (forest a)) (N.max (lastKey a) (lastKey b + 1)) (ptRoot a) nf
+  exists (mkStore (replace_root root ta' (forest a)) (N.max (N.max (lastKey a) (lastKey b + 1)) (lastKey b + 1)) (ptRoot a) nf
                   (nextLSN (bump_lsn a (nextLSN b)))).
   destruct (find_root_in _ _ _ Efa) as [Hin Hoff].
   split; [|split].
   - constructor; [| |exact Gb1].
     + destruct S1 as [F1 P1 N1]. constructor; assumption.
     + destruct Gx1 as [Sx1 [Lp Lx1]]. split.
-      * apply (SInv_header _ (N.max (lastKey a) (lastKey b + 1)) (ptRoot a) (nextLSN (bump_lsn a (nextLSN b)))) in Sx1;
+      * apply (SInv_header _ (N.max (N.max (lastKey a) (lastKey b + 1)) (lastKey b + 1)) (ptRoot a) (nextLSN (bump_lsn a (nextLSN b)))) in Sx1;
           [exact Sx1 | cbn [lastKey]; lia].
       * pose proof (bump_gt a (nextLSN b)). split; cbn [nextLSN forest] in *; [lia|].
         eapply Forall_nodes_weaken; [|exact Lx1]. lia.
   - cbn [nextLSN]. apply bump_gt.
-  - unfold replay_one. cbn [w_lsn w_page w_op w_cell w_val]. rewrite bump_forest.
+  - unfold replay_one. cbn [w_lsn w_page w_op w_cell w_val bump_key forest nextFree lastKey ptRoot nextLSN]. rewrite bump_forest.
     rewrite (find_node_complete (forest a) root true ta).
     2:{ destruct HR as [_ [[_ An _] _] _]. exact An. }
     2:{ exists ta. repeat split; auto; [apply root_in_nodes | rewrite Hoff, N.eqb_refl; reflexivity]. }
@@ -447,7 +497,7 @@ Proof.
   intros HR Hh Hmv.
   destruct (redo_leaf_lookup a b pg key HR Hh) as (isroot & off & ll & d & cells & hl & hr & ls & rs & Hfind & Hleb & Hex).
   eexists. split; [|split].
-  - unfold replay_one. cbn [w_lsn w_page w_op w_cell w_val]. rewrite bump_forest, Hfind. cbn [t_lsn].
+  - unfold replay_one. cbn [w_lsn w_page w_op w_cell w_val bump_key]. rewrite bump_forest, Hfind. cbn [t_lsn].
     rewrite Hleb, Hmv, Hex. rewrite <- (bump_forest a (nextLSN b)). reflexivity.
   - apply (rel_touch a b pg key (upd_fun bs) HR). reflexivity.
   - cbn [set_forest nextLSN]. apply bump_gt.
@@ -462,7 +512,7 @@ Proof.
   intros HR Hh.
   destruct (redo_leaf_lookup a b pg key HR Hh) as (isroot & off & ll & d & cells & hl & hr & ls & rs & Hfind & Hleb & Hex).
   eexists. split.
-  - unfold replay_one. cbn [w_lsn w_page w_op w_cell w_val]. rewrite bump_forest, Hfind. cbn [t_lsn].
+  - unfold replay_one. cbn [w_lsn w_page w_op w_cell w_val bump_key]. rewrite bump_forest, Hfind. cbn [t_lsn].
     rewrite Hleb, Hex. rewrite <- (bump_forest a (nextLSN b)). reflexivity.
   - apply (rel_touch a b pg key del_fun HR). reflexivity.
 Qed.
